@@ -28,7 +28,7 @@ func init() {
 		Replay: func(c *fw.Ctx, w json.RawMessage) {
 			fsx.ReplayWitness(c, fsx.Monitors{Model: true}, w)
 		},
-		Rule: "exhaustive: all 361 trees over names {a,b}, depth<=2, contents {c1,c2} x every single request over 8 paths (every method; COPY/MOVE over source x destination x Depth x Overwrite x Destination form; quick uses a reduced Depth x Overwrite product, thorough the full one), each on a freshly materialised directory with a snapshot before and after; plus entity-tag/media-type probes (GET/HEAD/PROPFIND/PUT four-way) on every stored file and after every successful PUT; plus seeded random lock-step histories over hostile names, depth<=4, contents up to 256 KiB. " +
+		Rule: "exhaustive: all 361 trees over names {a,b}, depth<=2, contents {c1,c2} plus 24 trees reaching depth 3-4 along /a/b/a x every single request over 8 paths (every method; COPY/MOVE over source x destination x Depth x Overwrite x Destination form; quick uses a reduced Depth x Overwrite product, thorough the full one), each on a freshly materialised directory with a snapshot before and after; plus entity-tag/media-type probes (GET/HEAD/PROPFIND/PUT four-way) on every stored file and after every successful PUT; plus seeded random lock-step histories over hostile names, depth<=4, contents up to 256 KiB. " +
 			"distinct_nontrivial counts distinct (method, abstract tree/request class, model expectation) keys whose request changes the model tree or is refused for a tree-dependent reason.",
 		Assumptions: []string{
 			"mutations involving the root '/', PROPPATCH/LOCK, trailing slash on a file path, Destination on a foreign host and Range requests are outside the model's universe (statement silent)",
